@@ -95,6 +95,8 @@ impl AbstractTree for Tree {
     fn get_version_history_lock(
         &self,
     ) -> std::sync::RwLockWriteGuard<'_, crate::version::SuperVersions> {
+        #[cfg(feature = "verif_hooks")]
+        crate::verif::wait_until("vh:blocked", || crate::verif::can_write(&self.version_history));
         #[expect(clippy::expect_used, reason = "lock is expected to not be poisoned")]
         self.version_history.write().expect("lock is poisoned")
     }
@@ -464,6 +466,8 @@ impl AbstractTree for Tree {
             blob_files.map(<[BlobFile]>::len).unwrap_or_default(),
         );
 
+        #[cfg(feature = "verif_hooks")]
+        crate::verif::wait_until("vh:blocked", || crate::verif::can_write(&self.version_history));
         #[expect(clippy::expect_used, reason = "lock is expected to not be poisoned")]
         let mut _compaction_state = self.compaction_state.lock().expect("lock is poisoned");
         #[expect(clippy::expect_used, reason = "lock is expected to not be poisoned")]
@@ -511,6 +515,8 @@ impl AbstractTree for Tree {
     fn clear_active_memtable(&self) {
         use crate::tree::sealed::SealedMemtables;
 
+        #[cfg(feature = "verif_hooks")]
+        crate::verif::wait_until("vh:blocked", || crate::verif::can_write(&self.version_history));
         #[expect(clippy::expect_used, reason = "lock is expected to not be poisoned")]
         let mut version_history_lock = self.version_history.write().expect("lock is poisoned");
         let super_version = version_history_lock.latest_version();
@@ -568,6 +574,8 @@ impl AbstractTree for Tree {
 
     #[expect(clippy::significant_drop_tightening)]
     fn rotate_memtable(&self) -> Option<Arc<Memtable>> {
+        #[cfg(feature = "verif_hooks")]
+        crate::verif::wait_until("vh:blocked", || crate::verif::can_write(&self.version_history));
         #[expect(clippy::expect_used, reason = "lock is expected to not be poisoned")]
         let mut version_history_lock = self.version_history.write().expect("lock is poisoned");
         let super_version = version_history_lock.latest_version();
